@@ -22,7 +22,7 @@ deriving Repr, Inhabited
 
 inductive Block where
   | para (cs : List Inline) (checked : Option Bool)
-  | heading (level : Nat) (cs : List Inline)
+  | heading (level : Nat) (cs : List Inline) (setext : Bool)   -- Heading / SetextHeading
   | list (ordered : Bool) (start : Nat) (bullet : Str) (tight : Bool) (items : List Block)
   | item (bs : List Block)
   | quote (bs : List Block)
